@@ -335,7 +335,7 @@ Lemma fwd_lines_total o : forall ls bs add idx acc, outcome_ok (fwd_lines o ls b
 Proof.
   induction ls as [|line ls IH]; intros bs add idx acc; cbn [fwd_lines].
   - destruct (fwd_finish o bs add); exact I.
-  - destruct (N.eqb (o_eol o) LF && negb (utf8_valid line)); [exact I|].
+  - destruct (negb (utf8_valid line)); [exact I|].
     destruct (fwd_bounds o bs add (idx + 1)%Z line) as [[out rest] a].
     destruct rest; [exact I | apply IH].
 Qed.
